@@ -11,6 +11,7 @@ diagnostic names (none when it names none).  The model covers ASCII text plus th
 the vocabulary; a text with other non-ASCII characters is skipped (counted)."""
 import ast as pyast
 import json
+import os
 import re
 
 from common import rng_for, run_driver, chash, quiet, time_limit, Timeout
@@ -366,3 +367,43 @@ def initial_passage_family(rep, n):
             rep.violations.append({"cls": None, "family": "c12-initial", "what": pr, "source": text})
     rep.coverage.setdefault("families", {})["c12-initial"] = {"cases": n, "compiled": checked, "failing": bad}
     rep.coverage["evaluations"] = rep.coverage.get("evaluations", 0) + checked
+
+
+def symlink_start_probe(rep, label="c12-symlink"):
+    """the initial passage does not depend on how the path to the story file is spelled: through a symlinked directory, a
+    symlinked file, a relative path, with includes"""
+    import tempfile, shutil
+    from bardic.compiler.parsing.io import parse_file
+    from bardic.compiler.compiler import BardCompiler
+    d = tempfile.mkdtemp(prefix="verif_link_")
+    n = 0
+    cwd = os.getcwd()
+    try:
+        real = os.path.join(d, "real", "game")
+        os.makedirs(real)
+        open(os.path.join(real, "story.bard"), "w").write("@start Cellar\n@include part.bard\n:: Start\nstart\n+ [go] -> Cellar\n")
+        open(os.path.join(real, "part.bard"), "w").write(":: Cellar\ncellar\n+ [up] -> Start\n")
+        os.symlink(os.path.join(d, "real"), os.path.join(d, "link"))
+        os.symlink(os.path.join(real, "story.bard"), os.path.join(d, "alias.bard"))
+        os.chdir(os.path.join(d, "real"))
+        for path in (os.path.join(real, "story.bard"), os.path.join(d, "link", "game", "story.bard"), os.path.join(d, "alias.bard"),
+                     "game/story.bard", "./game/../game/story.bard", os.path.join(d, "link", "game", "..", "game", "story.bard")):
+            for label_, f in (("parse_file", lambda: parse_file(path)),
+                              ("compile_file", lambda: (BardCompiler().compile_file(path, os.path.join(d, "o.json")), json.load(open(os.path.join(d, "o.json"))))[1])):
+                n += 1
+                try:
+                    with quiet():
+                        st = f()
+                except Exception as e:  # noqa
+                    if path.endswith("alias.bard"):
+                        continue       # (the include is looked up next to the link or next to the file: either is a defensible reading)
+                    rep.violations.append({"cls": None, "family": label, "what": f"{label_}({path!r}): {type(e).__name__}: {str(e)[:120]}"})
+                    continue
+                if st.get("initial_passage") != "Cellar":
+                    rep.violations.append({"cls": None, "family": label,
+                                           "what": f"{label_} of the story reached as {path!r} names the initial passage {st.get('initial_passage')!r}; its @start line says Cellar"})
+    finally:
+        os.chdir(cwd)
+        shutil.rmtree(d, ignore_errors=True)
+    rep.coverage.setdefault("families", {})[label] = {"cases": n}
+    rep.coverage["evaluations"] = rep.coverage.get("evaluations", 0) + n
